@@ -50,10 +50,6 @@ inductive Raise where
   | readError
   /-- `Error("fmt {}", args…)`: variadic formatting ctor → `EXIT_FAILURE` -/
   | fmtError
-  /-- `Error("… {} …", n)` with a *single `int` argument* (`nl-reader.h` "function {} is not defined",
-      `expr.h` "function {} is already defined"): overload resolution prefers the non-template
-      `Error(CStringRef msg, int c)`, so `n` becomes the exit code (and the message stays unformatted) -/
-  | fmtIntArg (n : Int)
   /-- `fmt::SystemError` (cannot open/map a file): *not* an `mp::Error` -/
   | systemError
   /-- any other `std::exception` (`std::runtime_error`, `std::bad_alloc`, `std::out_of_range` …) -/
@@ -85,7 +81,6 @@ def Raise.toExn : Raise → Exn
   | .optionError => .mpError (-1)
   | .readError => .mpError EXIT_FAILURE
   | .fmtError => .mpError EXIT_FAILURE
-  | .fmtIntArg n => .mpError n
   | .systemError => .stdExn
   | .stdExn => .stdExn
   | .foreign => .foreign
@@ -335,16 +330,26 @@ def reportError (ampl : Bool) (wantsol : Nat) (out : OutPath) (handler : Bool) (
             { code := x.reportCode, ncons := d.ncons, nduals := 0, nvars := d.nvars, nprimals := 0, complete := true })
   else .stderrExit 1              -- `throw std::runtime_error(msg)` from the catch clause: EXIT_FAILURE
 
+/-- `RunBackendApp`'s catch clauses: `return e.exit_code()` / `return EXIT_FAILURE` / no handler. -/
+def rbaOutcome : Exn → Outcome
+  | .mpError c => .stderrExit (exitStatus c)
+  | .stdExn => .stderrExit 1
+  | .foreign => .crash
+
+/-- `ReportSolution2AMPL` → `HandleSolution`; a `fmt::SystemError` from the writer is caught by `Run`'s
+`catch (std::exception)`, which reports it — i.e. tries to write again. -/
+def writeOrRetry (ampl : Bool) (wantsol : Nat) (out : OutPath) (handler : Bool) (d : Dims) (f : SolFile) : Outcome :=
+  match handleSolution ampl wantsol out f with
+  | some o => o
+  | none => reportError ampl wantsol out handler d .stdExn
+
 /-- An exception raised at `st`. -/
 def fail (ampl : Bool) (wantsol : Nat) (sc : Scenario) (st : Stage) (r : Raise) : Outcome :=
   if st.insideRun then
     reportError ampl wantsol sc.out st.handlerAvailable
       (if st.dimsKnown then sc.dims else if st = .populate then sc.partialDims else ⟨0, 0⟩) r.toExn
   else
-    match r.toExn with                       -- RunBackendApp's own catch clauses
-    | .mpError c => .stderrExit (exitStatus c)
-    | .stdExn => .stderrExit 1
-    | .foreign => .crash
+    rbaOutcome r.toExn                       -- RunBackendApp's own catch clauses
 
 /-- Does the fault (if any) strike at or before stage `st`? (stages are in execution order) -/
 def Stage.idx : Stage → Nat
@@ -420,11 +425,7 @@ def conclude (sc : Scenario) : Ending → Outcome
                          nvars := sc.dims.nvars,
                          nprimals := if sc.answer.havePrimal then sc.dims.nvars else 0,
                          complete := true }
-    match handleSolution a w sc.out f with
-    | some o => o
-    | none =>
-      -- SystemError from the writer is caught by Run's `catch (std::exception)`, which tries again
-      reportError a w sc.out true sc.dims .stdExn
+    writeOrRetry a w sc.out true sc.dims f
 
 /-- The whole run. -/
 def run (sc : Scenario) : Outcome := conclude sc (ending sc)
